@@ -576,9 +576,10 @@ class Inliner:
         def hoist_nested(st: ast.stmt) -> Optional[List[ast.stmt]]:
             """a call of a new helper that is more than an expression, nested inside a simple statement: evaluate it into a
             fresh local first (only when everything evaluated before it in that statement is a plain read)"""
-            if not isinstance(st, (ast.Assign, ast.Expr, ast.Return)) or st.value is None:
+            is_if = isinstance(st, ast.If)
+            if not is_if and (not isinstance(st, (ast.Assign, ast.Expr, ast.Return)) or st.value is None):
                 return None
-            top = st.value
+            top = st.test if is_if else st.value
             found = None
             # calls that are evaluated unconditionally, exactly once, when the statement runs
             uncond: List[ast.AST] = []
@@ -593,7 +594,7 @@ class Inliner:
                     collect(c)
             collect(top)
             for n in uncond:
-                if isinstance(n, ast.Call) and n is not top:
+                if isinstance(n, ast.Call) and (n is not top or is_if):
                     r = ex.resolve(n, modname, cls, chain)
                     if r is not None and r[0].value is None and not isinstance(r[0].fn, ast.Lambda) and r[0].fn is not fn and \
                             r[0].bind(n, r[1]) is not None and not _has_loop_return(r[0].fn.body):
@@ -617,7 +618,10 @@ class Inliner:
                     return self.generic_visit(node)
             pre = ast.Assign(targets=[ast.Name(id=nm, ctx=ast.Store())], value=found, lineno=st.lineno)
             ast.copy_location(pre, st)
-            st.value = R().visit(st.value)
+            if is_if:
+                st.test = R().visit(st.test)
+            else:
+                st.value = R().visit(st.value)
             ast.fix_missing_locations(pre)
             return [pre, st]
 
